@@ -46,10 +46,16 @@ class CommandHelp(AbstractHelp):
     def _render_usage(self, layout, command):  # type: (BlockLayout, Command) -> None
         formats_to_print = []
 
-        # Start with the default commands
-        if command.has_default_sub_commands():
+        # Start with the default commands (hidden ones are never printed)
+        default_sub_commands = [
+            sub_command
+            for sub_command in command.default_sub_commands
+            if not sub_command.config.is_hidden()
+        ]
+
+        if default_sub_commands:
             # If the command has default commands, print them
-            for sub_command in command.default_sub_commands:
+            for sub_command in default_sub_commands:
                 # The name of the sub command is only optional (i.e. printed
                 # wrapped in brackets: "[sub]") if the command is not
                 # anonymous
